@@ -4,6 +4,30 @@ import json, os, subprocess
 HERE = os.path.dirname(os.path.dirname(os.path.abspath(__file__)))
 
 CHECKS = {
+ "C06": ("exploration", "snapshot monitor (bytes, inode, sentinel mtime) around in-process verify runs on built projects: every single-point tamper class of every output must be rejected and left untouched; option mismatch / source edits judged against the real build run right after; strace write-set monitor on a CLI sample",
+         "verify is executed on the real code for each tampering of each output (including dependencies and outputs of exactly 0 / 8192 / 16384 bytes) and its verdict compared with what an actual build does to the same tree; read-only-ness observed on inode/mtime and at the syscall level.",
+         "Trusted: determinism of commands (the build right after defines 'up to date'); strace parser (harness/src/sys.rs).", "DESIGN.md §5 C06"),
+ "C07": ("exploration", "whole-tree snapshot equality S0 == clean(build(S0)) over generated projects and histories, marker-log monitor for executed commands, verdict monitor on erroneous sources, strace execve/creation monitor on a CLI sample",
+         "Every history is executed on the real code; the full tree (file set, bytes, inode/mtime of non-generated files, directories) is compared with the pre-build snapshot; command execution during clean is observed through marker files and execve.",
+         "Inputs are dependency-closed (directory, recursive). Generated paths from the reference model / a superset scan.", "DESIGN.md §5 C07"),
+ "C08": ("fault_enumeration", "pre-state enumeration + crash injection: each generated path planted with each leftover class, build/needed must reproduce the reference tree; CLI builds aborted at every hook event (TXTPP_VERIF=abort-at=k) and SIGKILLed at random offsets, then rebuilt and compared with the reference tree",
+         "Leftover classes and crash points are enumerated against the real code: 11 pre-state classes per generated path, every k-th hook/IO event of a full build (every event in thorough), random SIGKILLs; oracle = byte equality with the tree built from scratch.",
+         "Crash = abort()/SIGKILL of the whole process group on tmpfs; no power-loss model (page cache is not dropped).", "DESIGN.md §5 C08"),
+ "C09": ("exploration", "history monitor: random histories of edits/tampering/deletions/builds, then the same pre-state tree built with --needed and with a plain build at the same path; byte equality of every generated file, verdict equality, inode + sentinel-mtime monitor for files that were already correct; strace write-open monitor for -N on a CLI sample",
+         "Each judged step runs the real code twice on identical pre-states and compares; rewrite detection does not depend on timestamp granularity (sentinel mtimes + inode).",
+         "Trusted: snapshot utility; commands deterministic.", "DESIGN.md §5 C09"),
+ "C10": ("exploration", "snapshot-diff monitor (bytes, inode, mtime, directories) over all four modes x ok/failing projects x input selections x recursion with decoy files and pre-planted outputs of unprocessed sources; allowed set computed independently; strace write-set monitor on a CLI sample",
+         "Every run's diff must be a subset of the outputs/temp targets of the processed sources; decoys at near-miss names make a wrong path visible; syscall monitor catches write-then-restore.",
+         "Allowed set is a superset computed by scanning sources for temp/include/after lines.", "DESIGN.md §5 C10"),
+ "C12": ("exploration", "byte-scan monitor over outputs and temp files of generated and targeted mixed-line-ending projects built by the real code",
+         "Every output/temp of every successful build is scanned for a byte that breaks the single line ending of its source's first line; inputs mix LF/CRLF in every channel.",
+         "Domain D1 (CR only before LF). Temp ownership from the reference model.", "DESIGN.md §5 C12"),
+ "C13": ("exploration", "differential monitor: the same source tree built with the trailing-newline option on and off at the same path; relation on == off or on == off + one line ending (exactly that for text-ending sources); temp files identical; CLI -n mapping checked",
+         "End-of-file states are enumerated by a dedicated generator (each directive kind x output newline state x tag x tail line) and by the general generator; both builds are real executions.",
+         "Judged for sources whose directive results do not depend on the option (DESIGN §5 C13 domain note).", "DESIGN.md §5 C13"),
+ "C16": ("exploration", "metamorphic runtime monitors: identity on directive-free hostile text; write-escape round trip (also with a live stored tag whose name occurs in the text); mixed sources vs reference model",
+         "Texts are drawn from an alphabet of directive and tag look-alikes; each is built by the real code and compared byte for byte with the text itself.",
+         "Reference recogniser decides which lines are directive-free; blanks = space/tab.", "DESIGN.md §5 C16"),
  "C01": ("exploration", "runtime differential monitor: real in-process builds of generated multi-file projects vs an independent reference model of the README semantics (bytes of every output/temp file + verdict)",
          "Each generated in-domain project is built by the real code and every byte of every output and temp file plus the verdict is compared with the reference model; held on the projects counted in the evidence, with the model's coverage tuples showing which state-machine combinations were reached.",
          "Trusted: reference model (harness/src/model.rs), domain DESIGN §4.3, /bin/sh + coreutils for the command vocabulary.", "DESIGN.md §5 C01"),
